@@ -5,12 +5,13 @@ pipes the same operations to the real code and to this program and diffs the ans
 import ExecnetVerif.Driver.ValueIO
 import ExecnetVerif.Driver.ChannelFileIO
 import ExecnetVerif.Driver.XSpecIO
+import ExecnetVerif.Driver.RsyncIO
 import ExecnetVerif.Driver.NetIO
 import ExecnetVerif.Driver.NetCheck
 
 open ExecnetVerif
 
-def handlers : List (List String → Option String) := [serHandle, chanFileHandle, xspecHandle, groupHandle, Net.netHandle, Net.netCheckHandle]
+def handlers : List (List String → Option String) := [serHandle, chanFileHandle, xspecHandle, groupHandle, rsyncHandle, Net.netHandle, Net.netCheckHandle]
 
 def dispatch (line : String) : String :=
   let toks := (line.splitOn " ").filter (· ≠ "")
